@@ -135,7 +135,8 @@ impl Terminal {
         // Set final cursor position
         execute!(
             self.stderr,
-            cursor::MoveToColumn((PROMPT.len() + self.visible_cursor) as u16),
+            // Columns are 16 bits wide (and the terminal adds one): stay inside on absurdly long lines
+            cursor::MoveToColumn((PROMPT.len() + self.visible_cursor).min(u16::MAX as usize - 1) as u16),
         )
         .expect("failed to move cursor");
 
